@@ -232,12 +232,20 @@ func (w *World) lnAddress() string {
 func (w *World) userStopCtx(ui, mode int) {
 	ctx := context.Background()
 	var cancel context.CancelFunc = func() {}
+	var deadline time.Time
 	switch mode {
 	case 1:
 		ctx, cancel = context.WithCancel(ctx)
 		cancel()
 	case 2:
-		ctx, cancel = context.WithTimeout(ctx, 120*time.Millisecond)
+		if ui%2 == 1 {
+			// long enough for several of Stop's polling intervals: an engine that is
+			// down well before the deadline must be reported as down, not as a timeout
+			deadline = time.Now().Add(5 * time.Second)
+			ctx, cancel = context.WithDeadline(ctx, deadline)
+		} else {
+			ctx, cancel = context.WithTimeout(ctx, 120*time.Millisecond)
+		}
 	}
 	defer cancel()
 	before := w.engState()
@@ -246,8 +254,13 @@ func (w *World) userStopCtx(ui, mode int) {
 		w.stopEverAsked = true
 		w.markLocalAll()
 	}
+	w.stopCallsPending++
 	err := h.Stop(ctx)
+	w.stopCallsPending--
 	vsched.Yield("post-block")
+	if err != nil && !deadline.IsZero() && errors.Is(err, context.DeadlineExceeded) && w.runDone && !w.runDoneAt.IsZero() && deadline.Sub(w.runDoneAt) > 2*time.Second {
+		w.violate("C19", "stop-timeout-although-down", "Stop returned %v at its 5 s deadline although Run had returned %v before that deadline", err, deadline.Sub(w.runDoneAt))
+	}
 	after := w.engState()
 	w.logf("ctl Stop(mode %d) in %s..%s -> %v", mode, before, after, err)
 	w.probes["control-calls"]++
